@@ -386,12 +386,6 @@ Proof.
   destruct (return_addrs specs b) as [|v r]; [discriminate|]. inversion H; subst. left; reflexivity.
 Qed.
 
-Lemma spec_ev_b_iff o r : spec_ev_b o r = true <-> spec_ev o r.
-Proof.
-  destruct o as [x|s b|s b|s b]; destruct r as [i|u|l|a]; cbn [spec_ev_b spec_ev];
-    try apply spec_m_b_iff; try (split; [discriminate|contradiction]); split; auto.
-Qed.
-
 Lemma all2_Forall2 {A B} (f : A -> B -> bool) (P : A -> B -> Prop) :
   (forall a b, f a b = true <-> P a b) -> forall l1 l2, all2 f l1 l2 = true <-> Forall2 P l1 l2.
 Proof.
@@ -404,14 +398,272 @@ Proof.
     + intros H. inversion H; subst. split; assumption.
 Qed.
 
+(* ---------------------------------------------------------------------------------------------
+   a Response delivering several assertions: plain, encrypted, or inside an <Advice> *)
+
+Lemma spec_r_b_iff x l : spec_r_b x l = true <-> spec_r x l.
+Proof.
+  unfold spec_r_b, spec_r. apply all2_Forall2. intros a d. unfold spec_a. apply spec_m_b_iff.
+Qed.
+
+Lemma forallb_app {A} (f : A -> bool) l1 l2 : forallb f (l1 ++ l2) = forallb f l1 && forallb f l2.
+Proof. induction l1 as [|a r IH]; cbn [app forallb]; [reflexivity|]. rewrite IH, andb_assoc. reflexivity. Qed.
+
+(* every top-level assertion is processed (the processing order is a rearrangement of their document
+   order) - and no assertion that sits inside an <Advice> is *)
+Lemma forallb_processing_order f l : forallb f (processing_order l) = forallb f (filter is_top l).
+Proof.
+  unfold processing_order. rewrite forallb_app.
+  induction l as [|a r IH]; cbn [filter forallb]; [reflexivity|].
+  unfold is_plain at 1, a_enc at 1, is_top at 1. destruct (a_how a); cbn [forallb].
+  - rewrite <- IH. rewrite andb_assoc. reflexivity.
+  - rewrite <- IH. destruct (f a); cbn [andb]; [reflexivity|]. rewrite andb_false_r. reflexivity.
+  - exact IH.
+Qed.
+
+(* closed form: the Destination test, the count test, and EVERY top-level assertion passes
+   condition_ok and get_subject - whichever way it travelled, at whichever position *)
+Lemma accept_r_v0_closed x :
+  accept_r_v0 x = dest_ok (r_binding x) (r_dest x) (endpoint (r_specs x) (r_binding x))
+               && count_ok (r_assertions x)
+               && forallb (assertion_ok (r_me x) (r_conv x) (endpoint (r_specs x) (r_binding x)))
+                          (filter is_top (r_assertions x)).
+Proof. unfold accept_r_v0. rewrite forallb_processing_order. reflexivity. Qed.
+
+Lemma obligations_top x a : is_top a = true -> obligations x a = msg_of x a.
+Proof. unfold is_top, obligations, msg_of. destruct (a_how a); [reflexivity|reflexivity|discriminate]. Qed.
+
+(* an accepted Response: each of its top-level assertions would have been accepted as the only one *)
+Lemma accept_r_v0_every x a :
+  accept_r_v0 x = true -> In a (r_assertions x) -> is_top a = true -> accept (msg_of x a) = true.
+Proof.
+  rewrite accept_r_v0_closed. intros H Hin Ht.
+  apply andb_true_iff in H as [H H3]. apply andb_true_iff in H as [H1 _].
+  rewrite forallb_forall in H3. specialize (H3 a (proj2 (filter_In _ _ _) (conj Hin Ht))). unfold assertion_ok in H3.
+  unfold accept, msg_of; cbn [m_me m_specs m_binding m_conds m_dest m_conv m_confs].
+  rewrite H1. exact H3.
+Qed.
+
+Lemma accept_r_v0_dest x : accept_r_v0 x = true ->
+  dest_ok (r_binding x) (r_dest x) (endpoint (r_specs x) (r_binding x)) = true.
+Proof. rewrite accept_r_v0_closed. intros H. apply andb_true_iff in H as [H _]. apply andb_true_iff in H as [H _]. exact H. Qed.
+
+Lemma Forall2_map_r {A B} (P : A -> B -> Prop) (f : A -> B) l :
+  (forall a, In a l -> P a (f a)) -> Forall2 P l (map f l).
+Proof.
+  induction l as [|a r IH]; intros H; cbn [map]; constructor.
+  - apply H. left; reflexivity.
+  - apply IH. intros b Hb. apply H. right; exact Hb.
+Qed.
+
+(* the guard that excluded exactly finding C04-F2 (repaired by 913771bd): no assertion travels inside an <Advice> *)
+Definition no_advice (x : response) : bool := forallb is_top (r_assertions x).
+
+(* the behaviour before 913771bd satisfied the property on Responses with any list of plain / encrypted assertions ... *)
+Lemma drawn_from_v0_holds x : no_advice x = true -> spec_r x (drawn_from_v0 x).
+Proof.
+  intros Hg. unfold spec_r, drawn_from_v0. apply Forall2_map_r. intros a Hin. unfold spec_a.
+  unfold no_advice in Hg. rewrite forallb_forall in Hg. specialize (Hg a Hin).
+  rewrite (obligations_top x a Hg).
+  destruct (accept_r_v0 x) eqn:E.
+  - rewrite <- (accept_r_v0_every x a E Hin Hg). apply accept_holds.
+  - intros H. discriminate.
+Qed.
+
+(* ... and without the guard it FAILED (finding C04-F2): the attributes of an assertion that
+   sits in the <Advice> of a correctly addressed one are merged into the identity although its
+   AudienceRestriction names someone else *)
+Definition rsp (l : list assertion) : response :=
+  {| r_me := "https://sp.example.org/sp.xml";
+     r_specs := [EP "https://sp.example.org/acs/post" "urn:oasis:names:tc:SAML:2.0:bindings:HTTP-POST"];
+     r_binding := "urn:oasis:names:tc:SAML:2.0:bindings:HTTP-POST";
+     r_dest := Some "https://sp.example.org/acs/post";
+     r_conv := Some (Some "https://sp.example.org/sp.xml"); r_assertions := l |}.
+Definition asr (how : travel) (aud recip : string) : assertion :=
+  {| a_how := how; a_conds := Some (usual_conditions [[Some aud]]); a_confs := [bearer (Some recip)] |}.
+Definition witness_advice : response :=
+  rsp [asr Plain "https://sp.example.org/sp.xml" "https://sp.example.org/acs/post";
+       asr Advised "https://other.example.org/sp.xml" "https://sp.example.org/acs/post"].
+
+Lemma advice_v0_refuted : exists x, ~ spec_r x (drawn_from_v0 x).
+Proof.
+  exists witness_advice. intros H. apply spec_r_b_iff in H. vm_compute in H. discriminate.
+Qed.
+
+(* before 913771bd an <Advice> assertion never influenced the verdict *)
+Lemma filter_filter_sub {A} (p q : A -> bool) l :
+  (forall a, p a = true -> q a = true) -> filter p (filter q l) = filter p l.
+Proof.
+  intros H. induction l as [|a r IH]; cbn [filter]; [reflexivity|].
+  destruct (q a) eqn:Eq; cbn [filter].
+  - rewrite IH. reflexivity.
+  - destruct (p a) eqn:Ep; [rewrite (H a Ep) in Eq; discriminate|exact IH].
+Qed.
+
+Lemma plain_top a : is_plain a = true -> is_top a = true.
+Proof. unfold is_plain, is_top. destruct (a_how a); congruence. Qed.
+Lemma enc_top a : a_enc a = true -> is_top a = true.
+Proof. unfold a_enc, is_top. destruct (a_how a); congruence. Qed.
+
+Lemma advice_v0_unchecked x l :
+  filter is_top l = filter is_top (r_assertions x) ->
+  accept_r_v0 {| r_me := r_me x; r_specs := r_specs x; r_binding := r_binding x; r_dest := r_dest x;
+              r_conv := r_conv x; r_assertions := l |} = accept_r_v0 x.
+Proof.
+  intros H. rewrite !accept_r_v0_closed; cbn [r_me r_specs r_binding r_dest r_conv r_assertions]. rewrite H.
+  f_equal. f_equal. unfold count_ok, n_plain, n_enc.
+  rewrite <- (filter_filter_sub is_plain is_top l plain_top), <- (filter_filter_sub a_enc is_top l enc_top).
+  rewrite <- (filter_filter_sub is_plain is_top (r_assertions x) plain_top),
+          <- (filter_filter_sub a_enc is_top (r_assertions x) enc_top).
+  rewrite H. reflexivity.
+Qed.
+
+(* MAIN THEOREM over Responses with any list of assertions: the code as it is now (913771bd: an <Advice> assertion
+   must pass condition_ok) satisfies the property for EVERY Response *)
+Lemma spec_m_attributes_only me specs b k d cv :
+  dest_ok b d (endpoint specs b) = true -> condition_ok k me = true ->
+  spec_m {| m_me := me; m_specs := specs; m_binding := b; m_conds := k; m_dest := d; m_conv := cv; m_confs := [] |} true.
+Proof.
+  intros H1 H2 _. cbn [m_me m_specs m_binding m_conds m_dest m_conv m_confs].
+  split; [apply for_me_sound; rewrite <- condition_ok_for_me; exact H2|]. split.
+  - intros Hf d0 Hd Hne. apply asynchop_iff in Hf. unfold dest_ok in H1. rewrite Hf, Hd in H1.
+    apply orb_true_iff in H1 as [H1|H1]; [apply is_empty_true in H1; contradiction|].
+    apply endpoint_sound. apply mem_In; exact H1.
+  - intros eid c dd r _ [].
+Qed.
+
+Lemma drawn_from_holds x : spec_r x (drawn_from x).
+Proof.
+  unfold spec_r, drawn_from. apply Forall2_map_r. intros a Hin. unfold spec_a.
+  destruct (accept_r x) eqn:E; [|intros H; discriminate].
+  unfold accept_r in E. apply andb_true_iff in E as [E1 E2].
+  destruct (is_top a) eqn:Ht.
+  - rewrite (obligations_top x a Ht). rewrite <- (accept_r_v0_every x a E1 Hin Ht). apply accept_holds.
+  - rewrite forallb_forall in E2. specialize (E2 a Hin). unfold advice_ok in E2. rewrite Ht in E2. cbn [orb] in E2.
+    unfold obligations. unfold is_top in Ht. destruct (a_how a); try discriminate.
+    apply spec_m_attributes_only; [apply accept_r_v0_dest; exact E1|exact E2].
+Qed.
+
+(* 913771bd changed nothing for Responses without <Advice> assertions *)
+Lemma same_without_advice x : no_advice x = true -> drawn_from x = drawn_from_v0 x.
+Proof.
+  intros Hg. unfold drawn_from, drawn_from_v0, accept_r.
+  replace (forallb (advice_ok (r_me x)) (r_assertions x)) with true; [rewrite andb_true_r; reflexivity|].
+  symmetry. apply forallb_forall. intros a Hin. unfold no_advice in Hg. rewrite forallb_forall in Hg.
+  unfold advice_ok. rewrite (Hg a Hin). reflexivity.
+Qed.
+
+(* the one-assertion Response in the clear is the old message: same verdict, same property *)
+Lemma accept_r_resp_of x : accept_r (resp_of x) = accept x.
+Proof.
+  unfold accept_r, accept_r_v0, advice_ok, is_top, resp_of, accept, assertion_ok, processing_order, count_ok, n_plain, n_enc, is_plain, a_enc;
+    cbn [r_me r_specs r_binding r_dest r_conv r_assertions filter a_how app length forallb a_conds a_confs Nat.eqb orb].
+  rewrite !andb_true_r, andb_assoc. reflexivity.
+Qed.
+
+Lemma drawn_from_resp_of x : drawn_from (resp_of x) = [accept x].
+Proof. unfold drawn_from. rewrite accept_r_resp_of. reflexivity. Qed.
+
+Lemma spec_resp_of x o : spec_r (resp_of x) [o] <-> spec_m x o.
+Proof.
+  unfold spec_r, spec_a, resp_of, obligations; cbn [r_me r_specs r_binding r_dest r_conv r_assertions a_conds a_confs a_how].
+  destruct x as [me sp b k d cv cs]; cbn [m_me m_specs m_binding m_conds m_dest m_conv m_confs].
+  split.
+  - intros H. inversion H; subst. assumption.
+  - intros H. constructor; [exact H|constructor].
+Qed.
+
+(* all drawn or none: identity is never drawn from a part of the assertions only *)
+Lemma drawn_all_or_none x d : In d (drawn_from x) -> d = accept_r x.
+Proof. unfold drawn_from. rewrite in_map_iff. intros [a [H _]]. symmetry; exact H. Qed.
+
+(* the count test *)
+Lemma no_assertion_refused x : r_assertions x = [] -> accept_r x = false.
+Proof. intros H. unfold accept_r. rewrite accept_r_v0_closed, H. cbn. rewrite andb_false_r. reflexivity. Qed.
+
+(* closed form of the verdict as coded now: the Destination test, the count test, EVERY top-level assertion
+   passes condition_ok and get_subject - whichever way it travelled, at whichever position - and EVERY
+   assertion inside an <Advice> passes condition_ok *)
+Lemma accept_r_closed x :
+  accept_r x = dest_ok (r_binding x) (r_dest x) (endpoint (r_specs x) (r_binding x))
+               && count_ok (r_assertions x)
+               && forallb (assertion_ok (r_me x) (r_conv x) (endpoint (r_specs x) (r_binding x)))
+                          (filter is_top (r_assertions x))
+               && forallb (advice_ok (r_me x)) (r_assertions x).
+Proof. unfold accept_r. rewrite accept_r_v0_closed. reflexivity. Qed.
+
+Lemma accept_r_every x a :
+  accept_r x = true -> In a (r_assertions x) -> is_top a = true -> accept (msg_of x a) = true.
+Proof. unfold accept_r. intros H. apply andb_true_iff in H as [H _]. apply accept_r_v0_every; exact H. Qed.
+
+(* an accepted Response: the Conditions of each assertion inside an <Advice> are satisfied *)
+Lemma accept_r_advice x a :
+  accept_r x = true -> In a (r_assertions x) -> is_top a = false -> condition_ok (a_conds a) (r_me x) = true.
+Proof.
+  unfold accept_r. intros H Hin Ht. apply andb_true_iff in H as [_ H]. rewrite forallb_forall in H.
+  specialize (H a Hin). unfold advice_ok in H. rewrite Ht in H. exact H.
+Qed.
+
+(* non-vacuity: a plain assertion naming me next to an encrypted one naming someone else (either
+   order) => nothing is drawn; both naming me => both are drawn; two plain ones => refused (count);
+   two plain + one encrypted, all mine => all drawn; the same with a foreign bearer Recipient in the
+   second plain one => nothing is drawn; an advised assertion naming someone else was drawn from
+   before 913771bd and makes the Response fail now; an advised one naming me is drawn from *)
+Example response_examples :
+  let me := "https://sp.example.org/sp.xml" in
+  let other := "https://other.example.org/sp.xml" in
+  let acs := "https://sp.example.org/acs/post" in
+  (drawn_from (rsp [asr Plain me acs; asr Encrypted other acs]),
+   drawn_from (rsp [asr Encrypted other acs; asr Plain me acs]),
+   drawn_from (rsp [asr Plain me acs; asr Encrypted me acs]),
+   drawn_from (rsp [asr Plain me acs; asr Plain me acs]),
+   drawn_from (rsp [asr Plain me acs; asr Plain me acs; asr Encrypted me acs]),
+   drawn_from (rsp [asr Plain me acs; asr Plain me "https://evil.example.com/acs"; asr Encrypted me acs]),
+   drawn_from (rsp []),
+   drawn_from_v0 witness_advice, drawn_from witness_advice,
+   drawn_from (rsp [asr Encrypted me acs; asr Advised me "https://evil.example.com/acs"]))
+  = ([false; false], [false; false], [true; true], [false; false], [true; true; true], [false; false; false], [],
+     [true; true], [false; false], [true; true]).
+Proof. vm_compute. reflexivity. Qed.
+
+Lemma spec_ev_b_iff o r : spec_ev_b o r = true <-> spec_ev o r.
+Proof.
+  destruct o as [x|x|s b|s b|s b]; destruct r as [i|f|u|l|a]; cbn [spec_ev_b spec_ev];
+    try apply spec_m_b_iff; try apply spec_r_b_iff; try (split; [discriminate|contradiction]); split; auto.
+Qed.
+
 Lemma spec_trace_b_iff ops rs : spec_trace_b ops rs = true <-> spec_trace ops rs.
 Proof. apply all2_Forall2. exact spec_ev_b_iff. Qed.
 
-Lemma step_holds o : spec_ev o (step o).
-Proof. destruct o; cbn [step spec_ev]; [apply accept_holds|exact I|exact I|exact I]. Qed.
+(* the behaviour before 913771bd: the property held only under the guard "no Response of the sequence
+   carries an <Advice> assertion" *)
+Definition guard_op (o : op) : bool := match o with OResp x => no_advice x | _ => true end.
+Definition guard_ops (ops : list op) : bool := forallb guard_op ops.
+
+Lemma step_v0_holds o : guard_op o = true -> spec_ev o (step_v0 o).
+Proof.
+  destruct o; cbn [step_v0 step spec_ev guard_op]; intros Hg;
+    [apply accept_holds|apply drawn_from_v0_holds; exact Hg|exact I|exact I|exact I].
+Qed.
 
 (* for EVERY sequence of calls on any number of provider objects, every parse call of the modelled
    behaviour satisfies the property with respect to its own object's configuration *)
+Lemma trace_v0_holds ops : guard_ops ops = true -> spec_trace ops (run_ops_v0 ops).
+Proof.
+  unfold spec_trace, run_ops_v0, guard_ops. induction ops as [|o r IH]; cbn [map forallb]; intros Hg; constructor.
+  - apply step_v0_holds. apply andb_true_iff in Hg as [Hg _]. exact Hg.
+  - apply IH. apply andb_true_iff in Hg as [_ Hg]. exact Hg.
+Qed.
+
+Lemma trace_v0_refuted : exists ops, ~ spec_trace ops (run_ops_v0 ops).
+Proof.
+  exists [OResp witness_advice]. intros H. apply spec_trace_b_iff in H. vm_compute in H. discriminate.
+Qed.
+
+(* the code as it is now satisfies the property over ALL call sequences *)
+Lemma step_holds o : spec_ev o (step o).
+Proof. destruct o; cbn [step spec_ev]; [apply accept_holds|apply drawn_from_holds|exact I|exact I|exact I]. Qed.
+
 Lemma trace_holds ops : spec_trace ops (run_ops ops).
 Proof.
   unfold spec_trace, run_ops. induction ops as [|o r IH]; cbn [map]; constructor; [apply step_holds|exact IH].
